@@ -18,6 +18,7 @@ def run(ctx):
     wrappers.r_slots(ctx)
     wrappers.r_sign(ctx)
     pepsolve.r_ret(ctx)
+    pepsolve.r_order(ctx)
     nl = formula.r_class_lmi_symmetric(ctx)
     r_user_lmi(ctx)
     ctx.floor("send/track pairs", n, 8)
@@ -31,8 +32,11 @@ def r_user_lmi(ctx):
     from .. import flow
     repo = ctx.repo
     psd = repo.cls("PSDMatrix")
-    store = psd.find_method("_store")
     init = psd.find_method("__init__")
+    store = None
+    for s0 in init.body:
+        if isinstance(s0, ast.Assign) and dotted(s0.targets[0]) == "self.matrix_of_expressions" and isinstance(s0.value, ast.Call):
+            store = psd.find_method(call_name(s0.value))
     symmetrises = False
     for f in (store, init):
         if f is None:
